@@ -19,11 +19,20 @@ class NextRequest(Request, MutableMapping[str, Any]):
 
 
 def ensure_next(iterable: Iterable[bytes]) -> Iterable[bytes]:
-    first_chunk = iterable.__iter__().__next__()
+    iterator = iter(iterable)
+    first_chunks = []
+    for chunk in iterator:  # at most one step: the app has called start_response after it
+        first_chunks.append(chunk)
+        break
 
     def generator():
-        yield first_chunk
-        yield from iterable
+        try:
+            yield from first_chunks
+            yield from iterator
+        finally:
+            close = getattr(iterable, "close", None)
+            if close is not None:
+                close()
 
     return generator()
 
